@@ -313,3 +313,22 @@ def check_frame_typing(repo, chk):
                 chk.violation("T-frame", key, construct, "%s: %s" % (label, msg), file=fn.mod.rel, line=getattr(node, "lineno", fn.lineno))
     chk.require_count("T-frame", 10)
     chk.info("T-frame: %d rest_vector calls interpreted" % n_sites)
+    # which builder feeds the helicity angles: the chained one.  The single-boost variant reaches every rest frame
+    # directly from the input frame, which differs from the chain of boosts by a Wigner rotation for a moving parent
+    import ast as _ast
+    users = []
+    for rel_, m_ in sorted(repo.mods.items()):
+        if "/tests/" in rel_:
+            continue
+        for f_ in m_.funcs.values():
+            for c_ in _ast.walk(f_.node):
+                if isinstance(c_, _ast.Call) and norm_text(c_.func).split(".")[-1] == "cal_single_boost":
+                    users.append((f_, c_))
+    ha = repo.fn(CAL + "cal_helicity_angle")
+    chained = [c_ for c_ in _ast.walk(ha.node) if isinstance(c_, _ast.Call) and norm_text(c_.func).split(".")[-1] == "cal_chain_boost"]
+    ok_use = bool(chained) and not users
+    chk.oblige("T-frame", "cal_helicity_angle takes its rest-frame momenta from cal_chain_boost (%d call); cal_single_boost has %d callers" % (len(chained), len(users)), ok_use)
+    for f_, c_ in users[:2]:
+        chk.violation("T-frame", f_.key, "single-boost-used", "%s calls cal_single_boost: momenta boosted straight from the input frame differ from the chained rest frames by a Wigner rotation whenever the parent moves, so helicity angles of J >= 1 resonances change with the observer's frame" % f_.key, file=f_.mod.rel, line=c_.lineno)
+    if not chained and not users:
+        raise AnalysisError("cal_helicity_angle no longer calls cal_chain_boost: the source of its rest-frame momenta is not recognised")
